@@ -129,6 +129,7 @@ structure Fr (Kn : String → Prop) (σ0 : FState) (s0 s s' : CState) (D R C : N
   avail : ∀ q, Avail s' q → Avail s q
   mkeep : ∀ m ∈ s.qc.marked, m ∈ s'.qc.marked
   akeep : ∀ a ∈ s.qc.anc, a ∈ s'.qc.anc
+  anew : ∀ a ∈ s'.qc.anc, a ∈ s.qc.anc ∨ Avail s a
   tkeep : ∀ q, TgtL s0 s q → TgtL s0 s' q
   kkeep : s'.qc.kept = s.qc.kept
   val : ∀ q, ¬ Avail s q → ¬ D q → cur σ0 s' q = cur σ0 s q
@@ -141,14 +142,16 @@ abbrev NoN : Nat → Prop := fun _ => False
 variable {Kn : String → Prop} {ρ : Env} {σ0 : FState} {s0 : CState}
 
 theorem Fr.refl {D R C : Nat → Prop} (s : CState) : Fr Kn σ0 s0 s s D R C :=
-  ⟨Nat.le_refl _, fun _ h => h, fun _ h => h, fun _ h => h, fun _ h => h, rfl, fun _ _ _ => rfl, fun _ h _ => h,
+  ⟨Nat.le_refl _, fun _ h => h, fun _ h => h, fun _ h => h, fun _ h => Or.inl h, fun _ h => h, rfl, fun _ _ _ => rfl, fun _ h _ => h,
     fun _ h1 h2 _ h4 => Or.inl ⟨h1, h2, h4⟩⟩
 
 theorem Fr.trans {D1 D2 R1 R2 C1 C2 : Nat → Prop} {s s1 s2 : CState}
     (h1 : Fr Kn σ0 s0 s s1 D1 R1 C1) (h2 : Fr Kn σ0 s0 s1 s2 D2 R2 C2) :
     Fr Kn σ0 s0 s s2 (fun q => D1 q ∨ D2 q) (fun q => R1 q ∨ R2 q) (fun q => C1 q ∨ C2 q) := by
   refine ⟨Nat.le_trans h1.nq h2.nq, fun q h => h1.avail q (h2.avail q h), fun m h => h2.mkeep m (h1.mkeep m h),
-    fun a h => h2.akeep a (h1.akeep a h), fun q h => h2.tkeep q (h1.tkeep q h), h2.kkeep.trans h1.kkeep, ?_,
+    fun a h => h2.akeep a (h1.akeep a h),
+    fun a h => (h2.anew a h).elim (h1.anew a) (fun h' => Or.inr (h1.avail a h')),
+    fun q h => h2.tkeep q (h1.tkeep q h), h2.kkeep.trans h1.kkeep, ?_,
     fun x h hc => h2.priv x (h1.priv x h (fun hh => hc (Or.inl hh))) (fun hh => hc (Or.inr hh)), ?_⟩
   · intro q hq hd
     rw [h2.val q (fun h => hq (h1.avail q h)) (fun h => hd (Or.inr h)), h1.val q hq (fun h => hd (Or.inl h))]
@@ -161,11 +164,13 @@ theorem Fr.trans {D1 D2 R1 R2 C1 C2 : Nat → Prop} {s s1 s2 : CState}
 
 /-- weaken the sets; `D` and `C` only have to be covered on the qubits they are asked about -/
 theorem Fr.mono {D D' R R' C C' : Nat → Prop} {s s' : CState} (h : Fr Kn σ0 s0 s s' D R C)
-    (hd : ∀ q, ¬ Avail s q → D q → D' q) (hr : ∀ q, R q → R' q) (hc : ∀ x, PrivD Kn s0 s x → C x → C' x) :
+    (hd : ∀ q, ¬ Avail s q → D q → D' q)
+    (hr : ∀ q, R q → q ∈ s'.qc.anc → q ∉ s'.qc.kept → q ∉ s'.qc.marked → R' q)
+    (hc : ∀ x, PrivD Kn s0 s x → C x → C' x) :
     Fr Kn σ0 s0 s s' D' R' C' :=
-  ⟨h.nq, h.avail, h.mkeep, h.akeep, h.tkeep, h.kkeep, fun q hq hn => h.val q hq (fun hh => hn (hd q hq hh)),
+  ⟨h.nq, h.avail, h.mkeep, h.akeep, h.anew, h.tkeep, h.kkeep, fun q hq hn => h.val q hq (fun hh => hn (hd q hq hh)),
     fun x hx hn => h.priv x hx (fun hh => hn (hc x hx hh)),
-    fun a h1 h2 h3 h4 => (h.pend a h1 h2 h3 h4).imp id (hr a)⟩
+    fun a h1 h2 h3 h4 => (h.pend a h1 h2 h3 h4).imp id (fun hh => hr a hh h1 h3 h4)⟩
 
 /-! ### primitives -/
 
@@ -285,7 +290,8 @@ theorem gate_fr {cls : GClass} {cs : List Nat} {t : Nat} {s s' : CState} {g : AG
     Fr Kn σ0 s0 s s' (· = t) NoN (· ∈ cs) := by
   have hav : ∀ q, Avail s' q ↔ Avail s q := avail_congr ha.free ha.nq
   refine ⟨Nat.le_of_eq ha.nq.symm, fun q h => (hav q).mp h, fun m h => by rw [ha.marked]; exact h,
-    fun a h => by rw [ha.anc]; exact h, ?_, ha.kept, fun q _ hq => ha.cur_ne hc σ0 q hq, ?_, ?_⟩
+    fun a h => by rw [ha.anc]; exact h, fun a h => Or.inl (by rw [← ha.anc]; exact h), ?_, ha.kept,
+    fun q _ hq => ha.cur_ne hc σ0 q hq, ?_, ?_⟩
   · rintro q ⟨g', hg1, hg2⟩
     exact ⟨g', by rw [hL]; exact List.mem_append_left _ hg1, hg2⟩
   · intro x hx hcs
@@ -352,6 +358,7 @@ theorem Fr.of_quiet {C : Nat → Prop} {s s' : CState}
   have hav : ∀ q, Avail s' q ↔ Avail s q := avail_congr hf hn
   have hL : Lof s0 s' = Lof s0 s := Lof_congr hgt
   refine ⟨Nat.le_of_eq hn.symm, fun q h => (hav q).mp h, hmk, fun a h => by rw [ha]; exact h,
+    fun a h => Or.inl (by rw [← ha]; exact h),
     fun q h => by unfold TgtL; rw [hL]; exact h, hk, fun q _ _ => by rw [cur_congr hgt], ?_, ?_⟩
   · intro x hx hcx
     refine ⟨fun h => hx.nav ((hav x).mp h), hx.av0, by rw [hq]; exact hx.nn, ?_, by unfold Unread; rw [hL]; exact hx.unread,
@@ -503,7 +510,8 @@ theorem getFreeAncilla_gi {a : Nat} {s s' : CState}
     refine ⟨⟨hg', by rw [hgt, hL]; exact gi.gates, by rw [hgc, hL]; exact gi.comp, ?_, ?_, ?_,
         Nat.le_trans gi.nq hnq, fun q h' => gi.avail q (hav q h'), hkp.trans gi.kept,
         fun q h' => by rw [hcur]; exact gi.zero q (hav q h'), ?_, gi.knOK, ?_, hfnd, ?_, ?_, ?_, ?_⟩,
-      ⟨hnq, hav, fun m hm => by rw [hmk]; exact hm, hanck, htk, hkp, fun q _ _ => by rw [hcur], ?_, ?_⟩,
+      ⟨hnq, hav, fun m hm => by rw [hmk]; exact hm, hanck,
+        fun x hx => (hancs x hx).imp id (fun (e : x = a) => e ▸ hava), htk, hkp, fun q _ _ => by rw [hcur], ?_, ?_⟩,
       hcur, hava, ⟨hnava, gi.avail a hava, ?_, by rw [hex]; exact hnc, ?_, ?_⟩, hanca, by rw [hkp]; exact hakept,
       hmk, hex⟩
     · intro g hg; rw [hL] at hg
